@@ -8,6 +8,7 @@ import numpy as np
 
 import common
 import families as F
+import sbc_common as SC
 from common import prove
 from props import c02
 
@@ -54,6 +55,7 @@ def run(ctx):
     done = k = 0
     bad = []
     monos = F.monolayers()
+    adaptive_records = []
     # the listed known findings are re-examined first, on their recorded inputs (a finding that still fails prints its
     # KNOWN-FINDING line on every run; one that no longer fails is only noted)
     extra_inputs = []
@@ -72,6 +74,12 @@ def run(ctx):
             for sd in range(ctx.n(6, 16)):
                 extra_inputs.append((src.repeat((rep[0], rep[1], 1)), {"crystal": name, "kind": "monolayer", "repeat": list(rep), "systematic": True, "reseeded": True}, src, sd))
     target += len(extra_inputs)
+    # slabs of crystals with several atoms per primitive cell and low-symmetry cuts (where the construction of the prototype cell
+    # from "- span" neighbours and across in-plane cell boundaries is exercised), each in a seeded presentation
+    hard = [("ZnO", (1, 1, 1)), ("ZnO", (1, 0, 0)), ("CaF2", (1, 1, 0)), ("CaF2", (1, 1, 1)), ("Mg-hcp", (1, 1, 1)), ("Mg-hcp", (1, 0, 0)),
+            ("ZnS", (1, 1, 0)), ("Fe-bcc", (1, 1, 1)), ("TiO2", (1, 0, 0)), ("NaCl", (1, 1, 0)), ("Si-diamond", (1, 1, 1)), ("Ti-hcp", (1, 1, 0))]
+    hard_queue = [(n_, h_, 3, bool(j % 2)) for j, (n_, h_) in enumerate(hard)] * ctx.n(2, 6)
+    target += len(hard_queue)
     while done < target and k < target * 8:
         k += 1
         forced_seed = None
@@ -79,6 +87,19 @@ def run(ctx):
             s, desc, conv, forced_seed = extra_inputs.pop(0)
             exp_pbc, why = 2, None
             k -= 1
+        elif hard_queue:
+            s, desc, _, why = c02.gen(rng, 1, force=hard_queue.pop(0))
+            exp_pbc, conv = 3, None
+            k -= 1
+            if why is None:
+                conv = [m for n_, m, _ in F.compounds() if n_ == desc["crystal"]]
+                if conv:
+                    conv = conv[0]()
+                else:
+                    el, st = desc["crystal"].split("-")
+                    conv = F.conventional(el, st, [p for n_, s_, p in F.reference_elements() if n_ == el and s_ == st][0])
+            else:
+                done += 1
         elif k % 2 == 0:
             # monolayer supercells n x m, 3 <= n, m <= 7 (the property names no lateral size for monolayers; C18 uses 3x3-6x6),
             # cycling through the materials so that every run sees each of them
@@ -118,7 +139,10 @@ def run(ctx):
             for extra_seed in (int(rng.integers(0, 12)), int(rng.integers(0, 12)), int(rng.integers(12, 1000))):
                 extra_inputs.append((a.copy(), dict({k_: v_ for k_, v_ in desc.items() if k_ not in ("seed",)}, reseeded=True), conv, extra_seed))
         try:
-            clusters = SBC().get_clusters(a, seed=seed)
+            with SC.ProtoRecorder() as prec:
+                clusters = SBC().get_clusters(a, seed=seed)
+            if len(adaptive_records) < 500:
+                adaptive_records.extend(prec.adaptive[:30])
             big = max(clusters, key=lambda c: len(c.indices))
             cell = big.get_cell()
             got = analysis(cell, tol)
@@ -156,8 +180,8 @@ def run(ctx):
         ctx.finding(key, "%s %s: %s" % (b["desc"]["crystal"], b["desc"]["kind"], b["complaint"]),
                     {"kind": "failing-input", "case": b, "how": "SBC().get_clusters(atoms, seed=seed)[largest].get_cell() -> SymmetryAnalyzer(cell, symmetry_tol)"})
     import finder_helpers
-    finder_helpers.check(ctx, broken)
-    if broken and not ctx.findings:
+    finder_helpers.check(ctx, broken, adaptive_records)
+    if broken and not ctx.unknown_findings():
         ctx.finding("unproved", "theorem no longer checks, no failing crystal found", {"kind": "broken-obligation", "broken": broken}, found_input=False)
     ctx.coverage["broken"] = [{"what": k_, "info": i} for k_, i in broken]
     return common.finish(ctx, "other", "C02 family (noise <= 0.02) and monolayer supercells: prototype cell vs the source crystal's own unit cell at the same symmetry tolerance",
